@@ -229,6 +229,21 @@ func normMD(md metadata.MD) string {
 	return sb.String()
 }
 
+// scribbleMD is what a handler may do with a metadata value after it has handed it over (re-use it, keep one shared
+// value and edit it): the call owns a copy, so none of this may reach the client.
+func scribbleMD(md metadata.MD) {
+	if md == nil {
+		return
+	}
+	for k, vs := range md {
+		for i := range vs {
+			vs[i] = "scribbled-after-handing-over"
+		}
+		md[k] = append(vs, "appended-after-handing-over")
+	}
+	md["z-added-after-handing-over"] = []string{"1"}
+}
+
 func headerMD(k int) metadata.MD {
 	switch k {
 	case 0:
@@ -902,9 +917,11 @@ func serve(st srvStream, first string, hasFirst bool) (string, error) {
 					sn.note("server Send(%s): %s", c.payload, normErr(err))
 				}
 			case HS:
-				if err := st.SetHeader(headerMD(c.step.K)); err != nil {
+				md := headerMD(c.step.K)
+				if err := st.SetHeader(md); err != nil {
 					sn.note("server SetHeader: error")
 				}
+				scribbleMD(md)
 			case HD:
 				var md metadata.MD
 				if c.step.K > 0 {
@@ -913,8 +930,11 @@ func serve(st srvStream, first string, hasFirst bool) (string, error) {
 				if err := st.SendHeader(md); err != nil {
 					sn.note("server SendHeader: error")
 				}
+				scribbleMD(md)
 			case TS:
-				st.SetTrailer(trailerMD(c.step.K))
+				md := trailerMD(c.step.K)
+				st.SetTrailer(md)
+				scribbleMD(md)
 			case SW:
 				select {
 				case <-ctx.Done():
